@@ -26,8 +26,22 @@ from vsg import apply_rules, config  # noqa: E402
 INT = Interner()
 
 
-def run(text, args, work, name="t.vhd", deep=False, shuffle=None, repeat=False, deep_ends=False):
-    """one apply_rules execution on a scratch copy; returns observations"""
+class RunTimeout(BaseException):
+    pass
+
+
+def _alarm(signum, frame):
+    raise RunTimeout()
+
+
+def run(text, args, work, name="t.vhd", deep=False, shuffle=None, repeat=False, deep_ends=False, timeout=0):
+    """one apply_rules execution on a scratch copy; returns observations.  timeout (s): a run that does not return is
+    interrupted (SIGALRM) and reported with status "hang" (C19: no run fails to terminate)"""
+    import signal
+
+    if timeout:
+        signal.signal(signal.SIGALRM, _alarm)
+        signal.alarm(int(timeout))
     T = hooks.set_tracer(hooks.Tracer(toi=False, deep=deep))
     T.deep_ends = deep_ends
     T.check_viol = True
@@ -50,9 +64,15 @@ def run(text, args, work, name="t.vhd", deep=False, shuffle=None, repeat=False, 
     except SystemExit as e:
         obs["status"] = "exit"
         obs["exit"] = bool(e.code)
+    except RunTimeout:
+        obs["status"] = "hang"
+        obs["tb"] = traceback.format_exc()[-1500:]
     except Exception as e:
         obs["status"] = "crash:" + type(e).__name__
-        obs["tb"] = traceback.format_exc(limit=4)
+        obs["tb"] = traceback.format_exc()[-1500:]
+    finally:
+        if timeout:
+            signal.alarm(0)
     with open(tmp, encoding="utf-8", newline="", errors="replace") as f:
         obs["text"] = f.read()
     st1 = os.stat(tmp)
@@ -539,13 +559,19 @@ def robust_records(job, nid):
         text = read(item["path"])
         for k in range(job.get("per_file", 4)):
             how, bad = mutilate(text, rnd)
-            o = run(bad, ["--fix"] if k % 2 else ["-ap"], work)
+            o = run(bad, ["--fix"] if k % 2 else ["-ap"], work, timeout=job.get("timeout", 30))
             out = o["stdout"] + o.get("diag", "")
-            located = bool(re.search(r"Line\s+\d+", out)) and bool(re.search(r"Column\s+\d+", out))
+            located = bool(re.search(r"Line\s+\d+", out))      # "one-line-located": the message names the line
             nid += 1
-            recs.append({"t": "robust", "id": nid, "file": item["name"], "how": how, "mode": "fix" if k % 2 else "check", "outcome": "crash" if o["status"].startswith("crash") else ("rejected" if o["rejected"] else "accepted"),
-                         "status": o["status"], "located": bool(located), "exit": bool(o["exit"]), "rule_crashes": [hooks_name(c) for c in o["crashes"]][:3], "tail": out[-200:], "tb": o.get("tb", "")[-300:]})
+            recs.append({"t": "robust", "id": nid, "file": item["name"], "how": how, "mode": "fix" if k % 2 else "check", "outcome": "hang" if o["status"] == "hang" else ("crash" if o["status"].startswith("crash") else ("rejected" if o["rejected"] else "accepted")),
+                         "status": o["status"], "located": bool(located), "exit": bool(o["exit"]), "rule_crashes": [hooks_name(c) for c in o["crashes"]][:3], "site": site_of(o.get("tb", "")), "tail": out[-200:], "tb": o.get("tb", "")[-300:]})
     return recs
+
+
+def site_of(tb):
+    """innermost frame inside vsg/ of a traceback text -> 'file.py:function' (the call site that crashed / looped)"""
+    m = re.findall(r'File "[^"]*/vsg/([^"]+)", line \d+, in (\w+)', tb or "")
+    return "%s:%s" % (m[-1][0], m[-1][1]) if m else ""
 
 
 def hooks_name(c):
